@@ -374,3 +374,95 @@ Definition c10_step (n : nat) (n2 fuel : nat) (i : c10_instr) (st : list big * l
   end.
 Definition c10_run (n n2 fuel : nat) (prog : list c10_instr) (st : list big * list c10_event) : list big * list c10_event :=
   fold_left (fun s i => c10_step n n2 fuel i s) prog st.
+
+(* ======================= round 6: print / operator<< as a function of the STREAM STATE =======================
+   Formatting state of a std::ostream as far as an integer / character insertion depends on it:
+   basefield, showbase, uppercase, showpos, adjustfield, fill character, field width, and the digit grouping
+   of the imbued locale's numpunct facet (group size 0 = no grouping, separator character). *)
+Inductive c10_adjust := C10_adj_left | C10_adj_right | C10_adj_internal | C10_adj_other.   (* other: no bit / several bits *)
+Record c10_ios := {
+  c10_s_base : c10_base; c10_s_showbase : bool; c10_s_uppercase : bool; c10_s_showpos : bool;
+  c10_s_adjust : c10_adjust; c10_s_fill : ascii; c10_s_width : N; c10_s_group : N; c10_s_sep : ascii }.
+Definition c10_ios_set_base (s : c10_ios) (b : c10_base) : c10_ios :=
+  {| c10_s_base := b; c10_s_showbase := c10_s_showbase s; c10_s_uppercase := c10_s_uppercase s; c10_s_showpos := c10_s_showpos s;
+     c10_s_adjust := c10_s_adjust s; c10_s_fill := c10_s_fill s; c10_s_width := c10_s_width s; c10_s_group := c10_s_group s; c10_s_sep := c10_s_sep s |}.
+Definition c10_ios_set_showbase (s : c10_ios) (b : bool) : c10_ios :=
+  {| c10_s_base := c10_s_base s; c10_s_showbase := b; c10_s_uppercase := c10_s_uppercase s; c10_s_showpos := c10_s_showpos s;
+     c10_s_adjust := c10_s_adjust s; c10_s_fill := c10_s_fill s; c10_s_width := c10_s_width s; c10_s_group := c10_s_group s; c10_s_sep := c10_s_sep s |}.
+Definition c10_ios_set_width (s : c10_ios) (w : N) : c10_ios :=
+  {| c10_s_base := c10_s_base s; c10_s_showbase := c10_s_showbase s; c10_s_uppercase := c10_s_uppercase s; c10_s_showpos := c10_s_showpos s;
+     c10_s_adjust := c10_s_adjust s; c10_s_fill := c10_s_fill s; c10_s_width := w; c10_s_group := c10_s_group s; c10_s_sep := c10_s_sep s |}.
+Definition c10_adjust_is_left (s : c10_ios) : bool := match c10_s_adjust s with C10_adj_left => true | _ => false end.
+
+(* the letters a-f of a hex conversion under std::uppercase *)
+Definition c10_upcase (c : ascii) : ascii :=
+  match c with "a" => "A" | "b" => "B" | "c" => "C" | "d" => "D" | "e" => "E" | "f" => "F" | _ => c end%char.
+Definition c10_hexchar_case (uc : bool) (x : N) : ascii := if uc then c10_upcase (c10_hexchar x) else c10_hexchar x.
+(* the hex digits of v, most significant first (at least one digit) *)
+Fixpoint c10_hex_of_loop (fuel : nat) (uc : bool) (v : N) (acc : list ascii) : list ascii :=
+  match fuel with
+  | O => acc
+  | S f => if v <? 16 then c10_hexchar_case uc v :: acc else c10_hex_of_loop f uc (v / 16) (c10_hexchar_case uc (v mod 16) :: acc)
+  end.
+Definition c10_hex_of (uc : bool) (v : N) : list ascii := c10_hex_of_loop (S (N.to_nat (N.log2 v))) uc v [].
+(* numpunct grouping (one repeated group size g > 0): a separator between groups of g digits counted from the right;
+   the argument is the digit string REVERSED (least significant first), cnt = digits already in the current group *)
+Fixpoint c10_group_rev (g : N) (sep : ascii) (cnt : N) (l : list ascii) : list ascii :=
+  match l with
+  | [] => []
+  | c :: r => if (0 <? g) && (cnt =? g) then sep :: c :: c10_group_rev g sep 1 r else c :: c10_group_rev g sep (cnt + 1) r
+  end.
+Definition c10_group (g : N) (sep : ascii) (l : list ascii) : list ascii := rev (c10_group_rev g sep 0 (rev l)).
+(* padding of a field to the width: adjustfield == left: after the text; == internal: between prefix and digits;
+   every other value: in front.  The width is reset to 0 by every formatted insertion. *)
+Definition c10_pad_field (s : c10_ios) (prefix body : list ascii) : list ascii :=
+  let p := repeat (c10_s_fill s) (N.to_nat (c10_s_width s) - length (prefix ++ body)) in
+  match c10_s_adjust s with
+  | C10_adj_left => prefix ++ body ++ p
+  | C10_adj_internal => prefix ++ p ++ body
+  | _ => p ++ prefix ++ body
+  end.
+(* `s << std::hex << v` for a non-negative int v: basefield := hex; num_put: hex digits (uppercase), grouping, base prefix
+   0x/0X for v != 0 under showbase (showpos has no effect on a hex conversion), padding; width := 0 *)
+Definition c10_put_hex (s : c10_ios) (v : N) : list ascii * c10_ios :=
+  let s := c10_ios_set_base s C10_hex in
+  let digits := c10_group (c10_s_group s) (c10_s_sep s) (c10_hex_of (c10_s_uppercase s) v) in
+  let prefix := if c10_s_showbase s && negb (v =? 0) then ["0"; if c10_s_uppercase s then "X" else "x"]%char else [] in
+  (c10_pad_field s prefix digits, c10_ios_set_width s 0).
+(* `s << c` for a char c: padded like a string of length 1; width := 0 *)
+Definition c10_put_char (s : c10_ios) (c : ascii) : list ascii * c10_ios :=
+  (c10_pad_field s [] [c], c10_ios_set_width s 0).
+(* for (i=0; i<padding; i++) s << s.fill(); *)
+Fixpoint c10_put_fill (s : c10_ios) (k : nat) : list ascii * c10_ios :=
+  match k with
+  | O => ([], s)
+  | S k' => let '(o, s1) := c10_put_char s (c10_s_fill s) in let '(o', s2) := c10_put_fill s1 k' in (o ++ o', s2)
+  end.
+(* the two nested loops of print: for i = n-1..0, for d = hexdigits-1..0: s << std::hex << ((digit[i]>>(d*4))&0xF)
+   (`leading` is never true, so every hex digit is written and the trailing `if (leading) s << "0"` never runs) *)
+Definition c10_print_nibbles (s : c10_ios) (a : big) : list ascii * c10_ios :=
+  fold_left (fun os d =>
+    fold_left (fun os sh =>
+      let '(c, s') := c10_put_hex (snd os) (N.land (N.shiftr d (c10_param_nibble_bits * N.of_nat sh)) c10_param_nibble_mask) in
+      (fst os ++ c, s')) (rev (seq 0 (N.to_nat c10_param_hexdigits))) os) (rev a) ([], s).
+(* print AS WRITTEN in /repo (c59aad0): showbase is taken off for the digits and restored, the stream is left in
+   decimal; a pending field width is consumed by the FIRST hex digit alone *)
+Definition c10_print_ios_written (st : c10_ios) (a : big) : list ascii * c10_ios :=
+  let showbase := c10_s_showbase st in
+  let s := c10_ios_set_showbase st false in
+  let '(o, s) := c10_print_nibbles s a in
+  let s := c10_ios_set_base s C10_dec in
+  (o, if showbase then c10_ios_set_showbase s true else s).
+(* print after proposed fix C10-7: the field width is taken off the stream (`s.width(0)`) and applied to the number as a
+   whole: padding = width - n*hexdigits fill characters in front, or behind when adjustfield == left *)
+Definition c10_print_ios (st : c10_ios) (a : big) : list ascii * c10_ios :=
+  let showbase := c10_s_showbase st in
+  let s := c10_ios_set_showbase st false in
+  let padding := (N.to_nat (c10_s_width s) - N.to_nat c10_param_hexdigits * length a)%nat in
+  let s := c10_ios_set_width s 0 in
+  let left := c10_adjust_is_left s in
+  let '(o1, s) := if left then ([], s) else c10_put_fill s padding in
+  let '(o2, s) := c10_print_nibbles s a in
+  let '(o3, s) := if left then c10_put_fill s padding else ([], s) in
+  let s := c10_ios_set_base s C10_dec in
+  (o1 ++ o2 ++ o3, if showbase then c10_ios_set_showbase s true else s).
